@@ -168,13 +168,28 @@ def check(prog, run):
     an = am.methods.get("__anext__")
     shapes.require(an is not None, "C17.S3: AsyncMap.__anext__ not found")
     run.looked_at(an)
-    srcs = [n for n in ast.walk(an.node) if isinstance(n, ast.Call) and "__anext__" in ast.unparse(n.func)]
-    maps = [n for n in ast.walk(an.node) if isinstance(n, ast.Call) and ast.unparse(n.func) == "self.map_value"]
+    from ..canon import inline_simple_call
+    acn = Canon(an.node)
+    srcs, maps = [], []
+    for n in own_nodes(an.node):
+        if not isinstance(n, ast.Call):
+            continue
+        ft = acn.func_text(n)
+        if "__anext__" in ft:
+            srcs.append(n)
+        elif ft == "self.map_value":
+            maps.append(n)
+        else:
+            inl = inline_simple_call(prog, an, acn.expr(n))   # a small helper that starts the source's __anext__
+            if inl is not None and "__anext__" in ast.unparse(inl):
+                srcs.append(n)
     r.instance("__anext__: source pulls %d, mapper applications %d" % (len(srcs), len(maps)))
     if len(srcs) != 1 or len(maps) != 1:
         run.report(r, "%s:AsyncMap.__anext__:shape" % AIO, an.where(), "__anext__ pulls %d source items and applies the mapper %d times per result" % (len(srcs), len(maps)))
     else:
-        inside = any(x is srcs[0] for a in maps[0].args for x in ast.walk(a))
+        pos = (srcs[0].lineno, srcs[0].col_offset)
+        inside = any(isinstance(x, ast.Call) and (getattr(x, "lineno", None), getattr(x, "col_offset", None)) == pos
+                     for a in maps[0].args for x in ast.walk(acn.expr(a)))
         if not inside:
             run.report(r, "%s:AsyncMap.__anext__:mapping" % AIO, an.where(), "the mapper is not applied to the pulled source item")
         if any(isinstance(n, (ast.For, ast.While, ast.AsyncFor)) for n in ast.walk(an.node)):
